@@ -45,6 +45,12 @@ def _pair_field(l: ast.AST, r: ast.AST) -> Optional[str]:
     return None
 
 
+def _strip_cast(e: ast.AST) -> ast.AST:
+    while isinstance(e, ast.Call) and isinstance(e.func, ast.Attribute) and e.func.attr in ("astype", "copy", "flatten", "tolist") :
+        e = e.func.value
+    return e
+
+
 class Table:
     def __init__(self):
         self.atoms: Dict[str, Atom] = {}
@@ -83,6 +89,19 @@ class Table:
                     parts.append((k, False))
                 left = right
             return lambda a: all((not a[k]) if neg else a[k] for k, neg in parts)
+        if isinstance(e, ast.Call):
+            fn_ = norm(e.func)
+            # numpy equality predicates over two operands: one pair atom
+            if fn_ in ("np.array_equal", "np.allclose", "np.isclose", "numpy.array_equal", "np.array_equiv") and len(e.args) >= 2:
+                l_, r_ = _strip_cast(e.args[0]), _strip_cast(e.args[1])
+                sides = sorted([norm(l_), norm(r_)])
+                k = self.atom(" == ".join(sides), _pair_field(l_, r_))
+                return lambda a: a[k]
+            if fn_ in ("np.all", "all", "bool", "np.alltrue") and len(e.args) == 1 and isinstance(e.args[0], (ast.Compare, ast.BoolOp, ast.UnaryOp, ast.Call)):
+                inner = e.args[0]
+                if isinstance(inner, ast.Compare):
+                    inner = ast.Compare(left=_strip_cast(inner.left), ops=inner.ops, comparators=[_strip_cast(c_) for c_ in inner.comparators])
+                return self.formula(inner, env)
         if isinstance(e, ast.Call) and isinstance(e.func, ast.Name) and e.func.id == "all" and len(e.args) == 1 and isinstance(e.args[0], (ast.List, ast.Tuple)):
             fs = [self.formula(v, env) for v in e.args[0].elts]
             return lambda a: all(f(a) for f in fs)
